@@ -73,12 +73,14 @@ GapOps(s) ==
   \cup (IF "set_size" \in OpKinds THEN {[o |-> "set_size", n |-> n] : n \in SizeVals} ELSE {})
   \cup (IF "get_ids" \in OpKinds
         THEN {[o |-> "get_ids", names |-> <<n>>] : n \in LiveNames(s) \cup {"nosuch"}} ELSE {})
+  \cup (IF "hcancel" \in OpKinds
+        THEN {[o |-> "hcancel", h |-> h] : h \in {x \in 0 .. (NH - 1) : x < s.nh /\ s.tk[HT(x)].st = "pend"}} ELSE {})
   \cup (IF "hstart" \in OpKinds /\ s.nh < NH
         THEN {[o |-> "hstart", kind |-> k, re |-> b] : k \in (HKinds \ (IF GacPending(s) THEN {"gac"} ELSE {})), b \in BOOLEAN}
         ELSE {})
 
 (* operations that make sense inside user code (no gate releases there: the harness could, but nothing new) *)
-PointOps(s) == {op \in GapOps(s) : op.o \notin {"release", "release_cb", "hstart", "unlock"}}
+PointOps(s) == {op \in GapOps(s) : op.o \notin {"release", "release_cb", "hstart", "hcancel", "unlock"}}
 
 (* user-code points that may still be reached *)
 Points(s) ==
